@@ -3,7 +3,7 @@
 cd /verif; mkdir -p .work
 for C in "$@"; do
   /venv/bin/python tools/import_seeded.py $C 2>&1 | grep -E "^$C " >> .work/round2.txt
-  for n in 3 4; do
+  for n in 5 6; do
     d=seeded/$C-m$n
     [ -f $d/patch.diff ] || continue
     out=$(bash tools/try_mutant_wt.sh $d/patch.diff $C quick 2>&1)
